@@ -374,7 +374,7 @@ def plan(tier, seed):
     q = tier == 'quick'
     for lang in LANGS:
         p.append({'lang': lang, 'n': 36 if q else 200, 'chunk': 9 if q else 20,
-                  'extra_injections': 5 if q else 7})
+                  'extra_injections': 3 if q else 7})
         p.append({'lang': lang, 'n': 12 if q else 100, 'chunk': 6 if q else 20, 'transformations': 0,
                   'tag': 'noerase', 'extra_injections': 3 if q else 7})
         if not q:
